@@ -11,6 +11,10 @@
 //                                                              rs <seed> <k> <xmin> <xmax>         k draws Rejection_Sampling of exp(-t^2), t = (x - xmin)/(xmax - xmin)
 //   draws   <seed> <k> a_1 b_1 ... a_k b_k                -> the k draws Sample_Uniform(gen(seed), a_i, b_i)
 //   mcd     <k> a_1 b_1 ... a_k b_k <call>                -> as mc; the integrand makes these k draws (from a generator of its own) at every evaluation
+//   nestx   <first> <oe> <ie> <outer call> <inner call>   -> the inner call is made from the integrand of the outer call, at every evaluation, before (first = 1) or after (0) the
+//                                                            integrand reads its own point; oe / ie = mc (Integrate_MC) or fe (Integrate_2D / Integrate_3D, dim 2 / 3): inner value in a fresh
+//                                                            process, outer value, number of inner calls, how many differ, the first that differs, calls that changed their caller's region,
+//                                                            axes on which the inner points left the inner limits, then neval digest min_0 max_0 ... of the OUTER call
 //   front2d <method> <seed> <p> x1 x2 y1 y2 <fexpr>       -> Integrate_2D(...) neval digest minx maxx miny maxy
 //   front3d <method> <seed> <p> x1 x2 y1 y2 z1 z2 <fexpr> -> Integrate_3D(...) ...
 //   call := <method>[!<n>] <seed> <ncall> <dim> <region: 2*dim numbers {lower..., upper...}> <fexpr in v0..v9 / x y z>
@@ -85,6 +89,7 @@ struct Call
 	int ncall;
 	long throw_at = 0;	 // 0: never
 	int obj		  = -1;	 // >= 0: the caller's vector object of that number
+	bool front	  = false;	 // the call goes through the front end Integrate_2D (dim 2) / Integrate_3D (dim 3): limits passed one by one, no vector of the caller's
 	std::vector<double> region;	  // the limits as written in the case
 	std::vector<double> own;	  // the vector object handed to the library when the call names none
 	std::shared_ptr<vh::FExpr> e;
@@ -219,12 +224,58 @@ static void set_seed(unsigned int seed)
 }
 // runs the call (an exception of the integrand that comes out of Integrate_MC: aborted, the value is then meaningless);
 // inner: a factor the integrand computes at every evaluation (an integration of its own)
-static Outcome run_call(Call& c, Rec* rec, const std::function<double()>* inner = nullptr)
+// inner_first: the integrand computes that factor BEFORE it looks at the point it was handed (the argument is read only afterwards)
+static Outcome run_call(Call& c, Rec* rec, const std::function<double()>* inner = nullptr, bool inner_first = false)
 {
 	Outcome q;
 	long count					= 0;
+	if(c.front)
+	{
+		// through Integrate_2D / Integrate_3D with a Monte-Carlo method: region {lower..., upper...} handed over limit by limit
+		const std::vector<double>& L = c.region;
+		int dim						 = (int) (L.size() / 2);
+		auto body = [&](const double* p) {
+			double w = 1.0;
+			if(inner && inner_first)
+				w = (*inner)();
+			double v[10] = {0, 0, 0, 0, 0, 0, 0, 0, 0, 0};
+			for(int k = 0; k < dim; k++)
+				v[k] = p[k];
+			if(rec)
+				rec->point(v, dim);
+			if(++count == c.throw_at)
+				throw IntegrandGaveUp();
+			double val = vh::eval_fexpr(*c.e, v);
+			if(inner && !inner_first)
+				w = (*inner)();
+			return inner ? val * w : val;
+		};
+		set_seed(c.seed);
+		try
+		{
+			if(dim == 2)
+			{
+				std::function<double(double, double)> f2 = [&](double x, double y) { double p[2] = {x, y}; return body(p); };
+				q.value = Integrate_2D(f2, L[0], L[2], L[1], L[3], c.method, c.ncall);
+			}
+			else
+			{
+				std::function<double(double, double, double)> f3 = [&](double x, double y, double z) { double p[3] = {x, y, z}; return body(p); };
+				q.value = Integrate_3D(f3, L[0], L[3], L[1], L[4], L[2], L[5], c.method, c.ncall);
+			}
+		}
+		catch(const IntegrandGaveUp&)
+		{
+			q.aborted = true;
+			q.value	  = std::nan("");
+		}
+		return q;
+	}
 	std::vector<double>& region = region_object(c);
 	std::function<double(std::vector<double>&, const double)> f = [&](std::vector<double>& args, const double) {
+		double w = 1.0;
+		if(inner && inner_first)
+			w = (*inner)();
 		double v[10] = {0, 0, 0, 0, 0, 0, 0, 0, 0, 0};
 		for(size_t k = 0; k < args.size() && k < 10; k++)
 			v[k] = args[k];
@@ -237,8 +288,10 @@ static Outcome run_call(Call& c, Rec* rec, const std::function<double()>* inner 
 		double val = vh::eval_fexpr(*c.e, v);
 		if(g_integrand_draws)
 			run_draws(*g_integrand_draws, g_integrand_gen);
+		if(inner && !inner_first)
+			w = (*inner)();
 		if(inner)
-			val *= (*inner)();
+			val *= w;
 		return val;
 	};
 	set_seed(c.seed);
@@ -561,6 +614,55 @@ static void handler(vh::Reader& r, vh::Out& o)
 		else
 			o.f(worst);
 		o.i(nmod);
+	}
+	else if(op == "nestx")
+	{
+		// nestx <first> <outer entry> <inner entry> <outer call> <inner call>: the inner call is made from the integrand of the outer one at every
+		// evaluation, before (first = 1) or after (0) the integrand reads the point it was handed; entry = mc (Integrate_MC) or fe (Integrate_2D / _3D)
+		long first		= r.integer();
+		std::string oe	= r.word(), ie = r.word();
+		Call outer		= read_call(r);
+		Call inner		= read_call(r);
+		outer.front		= oe == "fe";
+		inner.front		= ie == "fe";
+		std::string fresh = in_fresh_process(inner);
+		long ninner = 0, ndiff = 0, nmod = 0;
+		double worst = std::nan("");
+		Rec irec;
+		std::function<double()> innerf = [&]() {
+			Outcome q = run_call(inner, &irec);
+			ninner++;
+			nmod += (q.during > 0) + q.after;
+			if(format_value(q.value, q.aborted) != fresh)
+			{
+				if(ndiff == 0)
+					worst = q.value;
+				ndiff++;
+			}
+			return q.value;
+		};
+		Rec rec;
+		Outcome q = run_call(outer, &rec, &innerf, first != 0);
+		nmod += (q.during > 0) + q.after;
+		long nout = 0;	 // axes of the inner call on which its evaluation points left its limits
+		int di	  = (int) (inner.region.size() / 2);
+		for(int k = 0; k < di && irec.n > 0; k++)
+		{
+			double lo = std::min(inner.region[k], inner.region[k + di]), hi = std::max(inner.region[k], inner.region[k + di]);
+			if(!(lo <= irec.mn[k] && irec.mx[k] <= hi))
+				nout++;
+		}
+		o.w(fresh);
+		o.f(q.value);
+		o.i(ninner);
+		o.i(ndiff);
+		if(ndiff == 0)
+			o.w(fresh);
+		else
+			o.f(worst);
+		o.i(nmod);
+		o.i(nout);
+		rec.put(o, (int) (outer.region.size() / 2));
 	}
 	else if(op == "front2d" || op == "front3d")
 	{
